@@ -406,18 +406,11 @@ func runC15(w *eng.W) {
 			}
 		}
 	}
-	// texts that are not valid UTF-8: stray continuation and lead bytes, sequences cut short, an encoded
-	// surrogate and an overlong form, at every place of a short text and in particular at its very end
-	byteAtoms := []string{"a", "1", " ", "+", "(", "'", ".", "\n", "\xff", "\x80", "\xe2", "\xe2\x80", "\xf0\x9f\x98", "\xc3", "\xed\xa0\x80", "\xc0\x80", "中", "\ufffd"}
 	bl := 3
 	if !q {
 		bl = 4
 	}
-	for l := 1; l <= bl; l++ {
-		seqsSharded(w, len(byteAtoms), l, func(idx []int) {
-			do("byte-sequences", joinIdx(byteAtoms, idx, ""))
-		})
-	}
+	byteSequences(w, "byte-sequences", bl, do)
 	neighbourTexts(w, "neighbour-code-points", do)
 	lookaheadForms(w, "lookahead-forms", do)
 	tokenSeqs(w, "full-seq", SigmaFull, 3, do)
